@@ -104,6 +104,13 @@ def run_case(case, rep, record=True):
                 check_obs(env, scn, out[0], modes, "reset")
                 h.mst = spec.initial()
                 continue
+            if op[0] == "v":
+                # read-only public methods (rendering to a captured stdout, mask, bounds ...) between the steps:
+                # everything afterwards must still honour the contract
+                walk.do_query(h, op[1])
+                if record:
+                    rep.count("queries")
+                continue
             if op[0] in ("g", "o", "b"):
                 continue
             if op[0] == "f" or op[0] == "r":
@@ -274,7 +281,7 @@ class _Runner:
 def _shard(shard, seed, tier, n_cases):
     rep = Reporter(PID, tier, RULE)
     strat = engine.case_strategy(tier, dict(extras=True), weights=(10, 4, 6), min_ops=8, max_ops=40,
-                                 modes=engine.MODES, resets=True, gens=False)
+                                 modes=engine.MODES, resets=True, gens=False, queries=True)
     engine.drive(_Runner(rep), strat, n_cases, seed)
     return rep
 
